@@ -285,11 +285,24 @@ func uhSpendableScript(r *Rng) []byte {
 	}
 }
 
-func genUhistCase(r *Rng) (*uhCase, *ubOracle) {
+// a forced plan for the corpus generator: mode, and the steps as (outpoint, base) lists
+type uhPlan struct {
+	mode  string
+	steps [][][2]int
+}
+
+func genUhistCase(r *Rng) (*uhCase, *ubOracle) { return genUhistCasePlan(r, nil) }
+
+func genUhistCasePlan(r *Rng, plan *uhPlan) (*uhCase, *ubOracle) {
 	c := &uhCase{mode: "k"}
 	o := &ubOracle{}
-	if r.Chance(45) {
+	if r.Chance(40) {
 		c.mode = "m"
+	}
+	if plan != nil {
+		c.mode = plan.mode
+	}
+	if c.mode == "m" {
 		c.master = r.Bytes(32)
 	}
 	addDerive := func(script []byte) []byte {
@@ -309,7 +322,7 @@ func genUhistCase(r *Rng) (*uhCase, *ubOracle) {
 		if r.Bool() {
 			c.keys = [][]byte{rskB, rskA}
 		}
-		if r.Chance(20) {
+		if r.Chance(12) && plan == nil {
 			c.keys = [][]byte{rskA}
 		}
 	}
@@ -335,6 +348,9 @@ func genUhistCase(r *Rng) (*uhCase, *ubOracle) {
 	c.bases = append(c.bases, mkBase(1+ubGenValue64(r)%(1<<50), scriptA, rskA, true))
 	c.bases = append(c.bases, mkBase(1+ubGenValue64(r)%(1<<50), scriptA, rskA, r.Bool()))
 	c.bases = append(c.bases, mkBase(1+ubGenValue64(r)%(1<<50), uhSpendableScript(r), rskB, false))
+	// base 3: the SAME script as base 0 but blinded for the other owned key (a set of blinding
+	// keys is not bound to scripts); with a master key the script fixes the key
+	c.bases = append(c.bases, mkBase(1+ubGenValue64(r)%(1<<50), scriptA, rskB, false))
 
 	type pre struct{ f [][]byte }
 	var blinded [][]byte // proofs, to size alterations
@@ -380,6 +396,16 @@ func genUhistCase(r *Rng) (*uhCase, *ubOracle) {
 	}
 	// first step: the honest prevout at outpoint 0 (sometimes with a second input)
 	nsteps := 2 + r.Intn(3)
+	if plan != nil {
+		nsteps = 0
+		for _, ps := range plan.steps {
+			var st uhStep
+			for _, ob := range ps {
+				st.ins = append(st.ins, uhInput{outpoint: ob[0], base: ob[1]})
+			}
+			c.steps = append(c.steps, st)
+		}
+	}
 	for k := 0; k < nsteps; k++ {
 		var st uhStep
 		var first uhInput
@@ -387,7 +413,9 @@ func genUhistCase(r *Rng) (*uhCase, *ubOracle) {
 		case k == 0 && r.Chance(85):
 			first = uhInput{outpoint: 0, base: 0}
 		default:
-			switch r.Intn(8) {
+			switch r.Intn(10) {
+			case 8, 9:
+				first = uhInput{outpoint: r.Pick(0, 2), base: 3} // same script, other key
 			case 0, 1, 2:
 				first = uhInput{outpoint: 0, base: 0, ops: alter(0)}
 			case 3, 4:
@@ -402,7 +430,9 @@ func genUhistCase(r *Rng) (*uhCase, *ubOracle) {
 		}
 		st.ins = append(st.ins, first)
 		if r.Chance(35) {
-			switch r.Intn(4) {
+			switch r.Intn(6) {
+			case 4, 5:
+				st.ins = append(st.ins, uhInput{outpoint: 1, base: 3}) // same packet, same script, other key
 			case 0:
 				st.ins = append(st.ins, uhInput{outpoint: 1, base: 2})
 			case 1:
@@ -540,8 +570,8 @@ type uhBlinder interface {
 // new output must unblind, with the output's blinding key, to exactly what BlindOutputs reports.
 func uhCheckBlindOutputs(c *uhCase, blinded []*ubBlindedOut) string {
 	repl := -1
-	for _, i := range []int{1, 2} {
-		if !bytes.Equal(c.bases[i].asset, c.bases[0].asset) {
+	for _, i := range []int{3, 1, 2} {
+		if i < len(c.bases) && !bytes.Equal(c.bases[i].asset, c.bases[0].asset) {
 			repl = i
 			break
 		}
@@ -651,7 +681,28 @@ func uhCheckBlindOutputs(c *uhCase, blinded []*ubBlindedOut) string {
 	return "OK"
 }
 
+// boundary histories for corpus/uhist.txt
+func genUhistCorpus(r *Rng, n int, w *bufio.Writer) {
+	plans := []uhPlan{
+		// same script, two owned keys: across packets, within one packet, and in the other order
+		{mode: "k", steps: [][][2]int{{{0, 0}}, {{2, 3}}, {{0, 0}}}},
+		{mode: "k", steps: [][][2]int{{{0, 0}, {1, 3}}}},
+		{mode: "k", steps: [][][2]int{{{0, 3}}, {{1, 0}, {2, 3}}}},
+		// same outpoint, replaced prevout (another amount), both constructors
+		{mode: "k", steps: [][][2]int{{{0, 0}}, {{0, 1}}, {{0, 2}}}},
+		{mode: "m", steps: [][][2]int{{{0, 0}}, {{0, 1}}, {{0, 2}}}},
+	}
+	for i := range plans {
+		c, o := genUhistCasePlan(r, &plans[i])
+		b := &sb{}
+		c.write(b)
+		o.write(b)
+		fmt.Fprintln(w, ubTrimRight(b.String()))
+	}
+}
+
 func init() {
+	gens["uhist-corpus"] = genUhistCorpus
 	gens["uhist"] = genUhistCases
 	runs["uhist"] = runUhist
 	checks["C06/uhist"] = checkC06Uhist
